@@ -9,9 +9,12 @@ lines forced to wrap at every column) and a stream of models the format cannot e
       `_WidthLimitedFile` + number formatting) from the coefficients the real CQM reports equals
       `lp.dumps(cqm)` byte for byte; refusals agree in kind (soft / label / SPIN) and order;
       `_validate_label` agrees with `Lp.validLabel` on every generated label.
-(ii)  correspondence, reader: `lp.loads(text)` (the real C++ parser + `model_to_cqm`, not modelled)
-      equals what the specification-level reader `Lp.loads` gives on the same text: variable order,
-      types, bounds, objective, constraint labels / senses / right-hand sides / left-hand sides.
+(ii)  correspondence, reader: `lp.loads(text)` (the real C++ parser + `model_to_cqm`, run in a child interpreter)
+      equals what the specification-level reader `Lp.loads` AND the Lean model of the C++ reader as coded
+      (`LpCpp.loads`, driver op `lpread`) give on the same text: variable order, types, bounds, objective,
+      constraint labels / senses / right-hand sides / left-hand sides.  The reader model is also driven on
+      hand-style LP texts and their near misses (`harness/props/c12_hand.py`), where the real parser is in
+      addition compared with an independent reference reading of the generation data.
 (iii) property predicate, independent of the model and of the writer's bookkeeping: `loads(dumps(cqm))`
       compared with the *generation data*: same variables with same types and bounds, same constraint
       labels and senses, objective equal as a polynomial (hence at every sample), every constraint's
